@@ -7,4 +7,4 @@ Set Extraction KeepSingleton.
 Extraction "model.ml"
   N.add Z.add Nat.add N.of_nat N.to_nat Z.of_N Z.to_N Bytes.b2n Bytes.n2b
   Prog.run Prog.cursor Prog.input_of_exts San.sanitize_prog San.mp4_sanitize
-  StackReader.stack_reader StackReader.stack_init StackReader.mp4_view StackReader.mp4_view_init.
+  StackReader.stack_reader StackReader.stack_init StackReader.mp4_view StackReader.mp4_view_init StackReader.mp4_view_init_at.
